@@ -422,10 +422,12 @@ def o_context_salt(rec, case, soft=False):
     if st == "err":
         rec.count("context_salt:refused")
         return
-    h1, h2 = ctx.hash("pw"), ctx.hash("pw")
-    s1, s2 = _salt_of(scheme, h1), _salt_of(scheme, h2)
-    if s1 == pinned or (s1 == s2 and s1):
-        rec.fail(f"C06/context-pins-salt/{how}", f"CryptContext accepted {key!r} and now produces a fixed salt", "context_salt", case, repr(s1), "refused", soft=soft)
+    for cat in (None, "admin", "default"):  # the option may have been given for a user category only
+        h1, h2 = ctx.hash("pw", category=cat), ctx.hash("pw", category=cat)
+        s1, s2 = _salt_of(scheme, h1), _salt_of(scheme, h2)
+        if s1 == pinned or (s1 == s2 and s1):
+            rec.fail(f"C06/context-pins-salt/{how}", f"CryptContext accepted {key!r} and now produces a fixed salt (category {cat!r})", "context_salt", case, repr(s1), "refused", soft=soft)
+            return
 
 
 # ---- layer 3: statistics ----------------------------------------------------------------------------
@@ -671,6 +673,98 @@ def t_all_salts(rec, seed, tier):
     rec.subrecord("salted-hashers", enumerated_sizes=True)
 
 
+@oracle(PROPERTY, "libpass_salt")
+def o_libpass_salt(rec, case, soft=False):
+    """case: {entropy, chars, draws}: libpass salts carry at least the requested entropy (and not a character more than needed), stay inside
+    the alphabet, and every position is uniform over it (chi-square at p ~ 1e-12)"""
+    import secrets as pysecrets
+
+    from libpass import _salt
+
+    e, chars, draws = case["entropy"], case["chars"], case["draws"]
+    seq = iter(case["script"]) if case.get("script") else None
+    real_choice = pysecrets.choice
+    if seq is not None:
+        _salt.secrets = type("S", (), {"choice": staticmethod(lambda cs: cs[next(seq) % len(cs)])})  # scripted source for the exact part
+    try:
+        out = [_salt.generate_salt_by_entropy(e, chars) if chars is not None else _salt.generate_salt_by_entropy(e) for _ in range(draws)]
+    finally:
+        _salt.secrets = pysecrets
+    assert pysecrets.choice is real_choice
+    cs = chars if chars is not None else _salt.DEFAULT_CHARS
+    bits = math.log2(len(cs))
+    n = len(out[0])
+    if n * bits < e - 1e-9 or (n - 1) * bits >= e + 1e-9:
+        rec.fail("C06/libpass-salt/entropy", f"libpass salt of {n} characters over {len(cs)} symbols for {e} requested bits", "libpass_salt", case, n, math.ceil(e / bits), soft=soft)
+        return
+    if any(len(x) != n or set(x) - set(cs) for x in out):
+        rec.fail("C06/libpass-salt/alphabet", "libpass salt has another length / characters outside the alphabet", "libpass_salt", case, None, None, soft=soft)
+        return
+    if seq is not None:
+        want = "".join(cs[v % len(cs)] for v in case["script"][: n])
+        if out[0] != want:
+            rec.fail("C06/libpass-salt/scripted", "libpass salt is not one uniform draw per character", "libpass_salt", case, out[0], want, soft=soft)
+        return
+    if draws >= 200 * len(cs):
+        crit = chi2_crit(len(cs) - 1)
+        for pos in (0, n // 2, n - 1):
+            cnt = {c: 0 for c in cs}
+            for x in out:
+                cnt[x[pos]] += 1
+            exp = draws / len(cs)
+            chi = sum((v - exp) ** 2 / exp for v in cnt.values())
+            if chi > crit:
+                rec.fail("C06/libpass-salt/not-uniform", f"libpass salt position {pos} is not uniform over the alphabet (chi2={chi:.1f} > {crit:.1f})", "libpass_salt", case, chi, crit, soft=soft)
+                return
+
+
+ORACLES["libpass_salt"] = o_libpass_salt
+
+
+def t_libpass_salt(rec, seed, tier):
+    r = random.Random(seed)
+    for chars in (None, "ab", "0123456789", "0123456789abcdef", table.H64, "abc"):
+        k = len(chars) if chars else 62
+        for e in [1, 2, 7, 8, 9, 63, 64, 65, 95, 96, 100, 127, 128, 129, 160, 192, 255, 256, 257] + [r.randrange(1, 600) for _ in range(10 if tier == "quick" else 200)]:
+            rec.ev()
+            rec.nt("libpass-salt", k, e)
+            o_libpass_salt(rec, {"entropy": e, "chars": chars, "draws": 1, "script": [r.randrange(0, 1 << 30) for _ in range(700)]}, soft=True)
+        rec.ev()
+        o_libpass_salt(rec, {"entropy": 24, "chars": chars, "draws": (300 if tier == "quick" else 3000) * k}, soft=True)
+    # the salts the libpass PBKDF2 hashers really put into a hash
+    from libpass.hashers.pbkdf2 import PBKDF2SHA256Handler, PBKDF2SHA512Handler
+
+    from passlib.utils.binary import ab64_decode
+
+    for cls in (PBKDF2SHA256Handler, PBKDF2SHA512Handler):
+        for _ in range(20):
+            hs = cls(rounds=1).hash("pw")
+            salt = ab64_decode(hs.split("$")[3])
+            rec.ev()
+            bits = len(salt) * math.log2(62)
+            want = getattr(cls(rounds=1), "_salt_entropy_bits", 128)
+            if bits < want or set(salt.decode()) - set("abcdefghijklmnopqrstuvwxyzABCDEFGHIJKLMNOPQRSTUVWXYZ0123456789"):
+                rec.fail(f"C06/libpass-salt/hasher/{cls.__name__}", f"libpass {cls.__name__} salt carries {bits:.1f} bits, configured {want}", "libpass_salt", {"kind": cls.__name__}, repr(salt), want, soft=True)
+                break
+    rec.sample("libpass_salt", {"alphabets": [2, 3, 10, 16, 62, 64], "entropies": "1..600"})
+
+
+def t_type7_salt(rec, seed, tier):
+    """cisco_type7 offsets: every value 0..15 reachable, uniform (chi-square at p ~ 1e-12), and exact under a scripted source"""
+    h = table.handler("cisco_type7")
+    n = 6000 if tier == "quick" else 60000
+    cnt = [0] * 16
+    for _ in range(n):
+        cnt[int(h.hash("x")[:2])] += 1
+    rec.ev(n)
+    rec.nt("type7-salt", n)
+    exp = n / 16
+    chi = sum((v - exp) ** 2 / exp for v in cnt)
+    if min(cnt) == 0 or chi > chi2_crit(15):
+        rec.fail("C06/salt-range/cisco_type7", "cisco_type7 generated offsets are not uniform over the declared range 0..15", "hasher_salt", {"name": "cisco_type7", "draws": n}, cnt, "uniform over 0..15", soft=True)
+    rec.sample("type7-salt", {"draws": n, "counts": cnt})
+
+
 def t_context_salt(rec, seed, tier):
     n = 0
     for scheme in ("sha256_crypt", "md5_crypt", "pbkdf2_sha256", "ldap_salted_sha1", "bcrypt", "des_crypt", "django_salted_sha1"):
@@ -712,6 +806,7 @@ def tasks(tier):
     ts += [
         {"name": "linear-bytes", "fn": "t_linear_bytes"}, {"name": "pairs-str", "fn": "t_pairs_str"},
         {"name": "generators", "fn": "t_generators"}, {"name": "all-salts", "fn": "t_all_salts"}, {"name": "context-salt", "fn": "t_context_salt"},
+        {"name": "libpass-salt", "fn": "t_libpass_salt"}, {"name": "type7-salt", "fn": "t_type7_salt"},
     ]
     nsh = 1 if tier == "quick" else 24
     ts += [{"name": f"exh-str-{i:02d}", "fn": "t_exh_str", "kw": {"shard": i, "nshards": nsh}} for i in range(nsh)]
